@@ -208,6 +208,7 @@ var envFaults = []string{
 	"pool_drain_same_block", "pools_nearly_emptied", "dust_everything", "failing_txs_with_fees",
 	"provider_vesting_slots_full", "vesting_slots_zero_then_epochs",
 	"hostile_registry_entries_small", "hostile_registry_entries_large", "gap_then_owner_partial_closes", "fast_year_then_owner_partial_closes",
+	"asset_entry_deleted_by_governance", "asset_entry_rewritten_by_governance",
 }
 
 func init() {
@@ -379,6 +380,45 @@ func applyFault(c *run.Ctx, w *chain.World, g freeGen, name string, edges map[st
 		p.ProviderVestingEpochIdentifier = "five_minutes"
 		w.GovExec(name+"/epoch", &estakingtypes.MsgUpdateParams{Authority: w.Gov, Params: p})
 		g.Free(8, func(i int) int64 { return 301 })
+	case name == "asset_entry_deleted_by_governance":
+		// governance owns the registry entries of the real assets and may delete them: the volatile
+		// asset of the leveraged market, then the staking denom's reward token entry, lose their profile
+		// while pools, positions, rewards and vestings in them exist; later the entries come back
+		for _, dn := range []string{"uatom", "ueden"} {
+			e, found := w.App.AssetprofileKeeper.GetEntry(w.ReadCtx(), dn)
+			if !found {
+				continue
+			}
+			if w.GovExec(name+"/"+dn, &aptypes.MsgDeleteEntry{Authority: w.Gov, BaseDenom: dn}) {
+				c.Ev("asset_entry_deleted")
+			} else {
+				c.Ev("asset_entry_deletion_refused")
+			}
+			g.Free(12, g.StdDt)
+			if !w.Dead {
+				w.GovExec(name+"/restore/"+dn, &aptypes.MsgAddEntry{Creator: w.Gov, BaseDenom: e.BaseDenom, Denom: e.Denom, Decimals: e.Decimals, DisplayName: e.DisplayName, CommitEnabled: e.CommitEnabled, WithdrawEnabled: e.WithdrawEnabled})
+			}
+			g.Free(6, g.StdDt)
+		}
+	case name == "asset_entry_rewritten_by_governance":
+		// the same entries rewritten with other decimals and with committing / withdrawing disabled
+		for i, dn := range []string{"uatom", "uusdc", "ueden"} {
+			e, found := w.App.AssetprofileKeeper.GetEntry(w.ReadCtx(), dn)
+			if !found {
+				continue
+			}
+			m := &aptypes.MsgUpdateEntry{Authority: w.Gov, BaseDenom: e.BaseDenom, Denom: e.Denom, Decimals: []uint64{18, 0, 6}[i], DisplayName: e.DisplayName, CommitEnabled: i == 1, WithdrawEnabled: i == 0}
+			if w.GovExec(name+"/"+dn, m) {
+				c.Ev("asset_entry_rewritten")
+			} else {
+				c.Ev("asset_entry_rewrite_refused")
+			}
+			g.Free(12, g.StdDt)
+			if !w.Dead {
+				w.GovExec(name+"/restore/"+dn, &aptypes.MsgUpdateEntry{Authority: w.Gov, BaseDenom: e.BaseDenom, Denom: e.Denom, Decimals: e.Decimals, DisplayName: e.DisplayName, CommitEnabled: e.CommitEnabled, WithdrawEnabled: e.WithdrawEnabled})
+			}
+			g.Free(6, g.StdDt)
+		}
 	case name == "hostile_registry_entries_small", name == "hostile_registry_entries_large":
 		// assetprofile.MsgAddEntry and oracle.MsgCreateAssetInfo are accepted from anybody on this tree:
 		// users register price infos for share / reward denoms and asset-profile entries that shadow
